@@ -287,4 +287,32 @@ def gen_postings(items):
         return D('INDEX_TEXT_SHAPE_OK', 1, f'{f}::index_text: start = end_position + token.position; end = max(.., start + position_length); + POSITION_GAP; only subscribed tokens counted')
     items.append(index_text_counts)
 
+    def vint_u32_translated():
+        # the body of serialize_vint_u32 translated mechanically (extract/rs2lean.py): the
+        # `(res, num_bytes)` expression as a function of `val`; `*buf = res.to_le_bytes(); &buf[0..num_bytes]`
+        # is checked textually by vint_u32_ladder above
+        import importlib.util as _ilu
+        _spec = _ilu.spec_from_file_location('rs2lean_c07', os.path.join(os.path.dirname(os.path.abspath(__file__)), 'rs2lean.py'))
+        r2l = _ilu.module_from_spec(_spec); _spec.loader.exec_module(r2l)
+        f = 'common/src/vint.rs'
+        body = _fn_body2(f, 'serialize_vint_u32')
+        consts = {}
+        for name, expr in re.findall(r'const\s+((?:START|MASK)_\d)\s*:\s*u64\s*=\s*([^;]+);', body):
+            consts[name] = (eval_const_expr(expr, {k: v[0] for k, v in consts.items()}), 'u64')
+        m = re.search(r'const\s+STOP_BIT\s*:\s*u64\s*=\s*([^;]+);', body)
+        if not m:
+            raise Fail(f'{f}: serialize_vint_u32: local STOP_BIT not found')
+        consts['STOP_BIT'] = (eval_const_expr(m.group(1), {}), 'u64')
+        mm = re.search(r'let\s+val\s*=\s*u64::from\(val\);.*?let\s*\(res,\s*num_bytes\)\s*=\s*(.*?);\s*\*buf\s*=\s*res\.to_le_bytes\(\);', body, flags=re.S)
+        if not mm:
+            raise Fail(f'{f}: serialize_vint_u32: `let (res, num_bytes) = …; *buf = res.to_le_bytes();` not found')
+        syn = ('fn serialize_vint_u32_packed(val: u32) -> (u64, usize) {\n    let val = u64::from(val);\n    '
+               + mm.group(1) + '\n}\n')
+        try:
+            return (f'-- translated from {f}::serialize_vint_u32 (the `(res, num_bytes)` expression)\n'
+                    + r2l.translate_fn(syn, 'serialize_vint_u32_packed', consts, 'serialize_vint_u32_packed'))
+        except r2l.Unsupported as e:
+            raise Fail(f'{f}::serialize_vint_u32: outside the translatable subset: {e}')
+    items.append(vint_u32_translated)
+
     items.append(lambda: 'end Postings')
